@@ -105,8 +105,9 @@ type traceRule struct {
 	exprValSt  func(ip *Interp, fr *Frame, st *State, e ast.Expr) (Value, bool)
 	litElem    func(ip *Interp, fr *Frame, st *State, lit *ast.CompositeLit, key string, v Value) *State
 	fieldStore func(ip *Interp, fr *Frame, st *State, sel *ast.SelectorExpr, v Value) *State
-	loadSyms   bool    // in interference mode, record which value each Load returned ("load:<v>")
-	args       []Value // abstract values bound to the root function's parameters
+	calleeRet  func(entry, s kv) kv // an inlined callee returns (entry: the state it was entered with)
+	loadSyms   bool                 // in interference mode, record which value each Load returned ("load:<v>")
+	args       []Value              // abstract values bound to the root function's parameters
 }
 
 type traceDom struct {
@@ -258,6 +259,12 @@ func (d *traceDom) Inline(ip *Interp, fr *Frame, st *State, call *ast.CallExpr, 
 }
 
 func (d *traceDom) Visit(ip *Interp, fr *Frame, st *State, n ast.Node) *State {
+	if cr, ok := n.(CalleeReturn); ok {
+		if d.r.calleeRet != nil {
+			return st.WithDom(d.r.calleeRet(cr.Entry.Dom.(kv), st.Dom.(kv)))
+		}
+		return st
+	}
 	if d.r.visit == nil {
 		return st
 	}
